@@ -1,13 +1,13 @@
 SPECIFICATION Spec
 CONSTANTS
-  Threads = {1, 2, 3}
-  Prog <- ProgList2
-  HashOf <- HashSame
-  InitKeys <- Init0
-  N0 = 2
+  Threads = {1, 2}
+  Prog <- ProgIt2
+  HashOf <- HashId
+  InitKeys <- Init1
+  N0 = 1
   DCAP = 2
-  MaxNodes = 6
-  MaxTabs = 1
+  MaxNodes = 12
+  MaxTabs = 3
   STRIDE = 1
   MAXRES = 100
   STAMPCHECK = TRUE
